@@ -185,6 +185,28 @@ breaking('K5-seed-C20-r2m3', {'C20': 'K5'}, patch='/verif/selftest/patches/seed_
 breaking('O5-seed-C09-r2m1', {'C09': 'O5'}, patch='/verif/selftest/patches/seed_C09_r2m1.diff')
 breaking('S7-seed-C09-r2m2', {'C09': 'S7', 'C10': 'S7'}, patch='/verif/selftest/patches/seed_C09_r2m2.diff')
 breaking('SP4-seed-C09-r2m3', {'C09': 'SP4'}, patch='/verif/selftest/patches/seed_C09_r2m3.diff')
+breaking('SH1-seed-C01-r3m1', {'C01': 'SH1'}, patch='/verif/selftest/patches/seed_C01_r3m1.diff')
+breaking('AR3-seed-C01-r3m2', {'C01': 'AR3'}, patch='/verif/selftest/patches/seed_C01_r3m2.diff')
+breaking('W3-seed-C01-r3m3', {'C01': 'W3', 'C02': 'W3'}, patch='/verif/selftest/patches/seed_C01_r3m3.diff')
+breaking('ER1-seed-C03-r3m1', {'C03': 'ER1'}, patch='/verif/selftest/patches/seed_C03_r3m1.diff')
+breaking('R1-seed-C03-r3m2', {'C03': 'R1', 'C04': 'R1'}, patch='/verif/selftest/patches/seed_C03_r3m2.diff')
+breaking('D3-seed-C03-r3m3', {'C03': 'D3', 'C04': 'D3', 'C11': 'D3'}, patch='/verif/selftest/patches/seed_C03_r3m3.diff')
+breaking('A9-seed-C04-r3m1', {'C04': 'A9'}, patch='/verif/selftest/patches/seed_C04_r3m1.diff')
+breaking('PU1-seed-C04-r3m2', {'C03': 'PU1', 'C11': 'PU1'}, patch='/verif/selftest/patches/seed_C04_r3m2.diff')
+breaking('A1-seed-C04-r3m3', {'C03': 'A1', 'C04': 'A1', 'C11': 'A1'}, patch='/verif/selftest/patches/seed_C04_r3m3.diff')
+breaking('EO1-seed-C05-r3m1', {'C05': 'EO1'}, patch='/verif/selftest/patches/seed_C05_r3m1.diff')
+breaking('T2-seed-C05-r3m2', {'C05': 'T2'}, patch='/verif/selftest/patches/seed_C05_r3m2.diff')
+breaking('CS1-seed-C05-r3m3', {'C05': 'CS1'}, patch='/verif/selftest/patches/seed_C05_r3m3.diff')
+breaking('H7-seed-C07-r3m2', {'C07': 'H7'}, patch='/verif/selftest/patches/seed_C07_r3m2.diff')
+breaking('H8-seed-C07-r3m3', {'C07': 'H8'}, patch='/verif/selftest/patches/seed_C07_r3m3.diff')
+breaking('RO1-seed-C12-r3m1', {'C12': 'RO1'}, patch='/verif/selftest/patches/seed_C12_r3m1.diff')
+breaking('X1-seed-C12-r3m3', {'C12': 'X1'}, patch='/verif/selftest/patches/seed_C12_r3m3.diff')
+breaking('G4-seed-C16-r3m1', {'C16': 'G4'}, patch='/verif/selftest/patches/seed_C16_r3m1.diff')
+breaking('DT3-seed-C16-r3m2', {'C16': 'DT3'}, patch='/verif/selftest/patches/seed_C16_r3m2.diff')
+breaking('NZ2-seed-C16-r3m3', {'C16': 'NZ2'}, patch='/verif/selftest/patches/seed_C16_r3m3.diff')
+breaking('Q7-seed-C19-r3m1', {'C19': 'Q7'}, patch='/verif/selftest/patches/seed_C19_r3m1.diff')
+breaking('Q2-seed-C19-r3m2', {'C19': 'Q2'}, patch='/verif/selftest/patches/seed_C19_r3m2.diff')
+breaking('IT1-seed-C19-r3m3', {'C19': 'IT1'}, patch='/verif/selftest/patches/seed_C19_r3m3.diff')
 breaking('refix-get_gme_2qubit', {'C13': 'F2', 'C05': 'F2'}, patch_reverse='fix_78cd862.diff')
 
 # ---- textual breaking edits, one per rule family
